@@ -120,6 +120,18 @@ func (g *ExprGen) leaf(t Ty) *E {
 	return Num(intLits[g.Rng.Intn(len(intLits))])
 }
 
+// isCol: name is a column of the schema (whether or not a binding has the same name).
+func (g *ExprGen) isCol(name string) bool {
+	for _, l := range g.Cols {
+		for _, c := range l {
+			if c.Name == name {
+				return true
+			}
+		}
+	}
+	return false
+}
+
 // Gen makes an expression of nominal type t with nesting depth <= depth.
 func (g *ExprGen) Gen(t Ty, depth int) *E {
 	if g.IllTyped > 0 && g.Rng.Intn(g.IllTyped) == 0 {
@@ -132,6 +144,32 @@ func (g *ExprGen) Gen(t Ty, depth int) *E {
 	r := g.Rng
 	switch t {
 	case TBool:
+		if r.Intn(16) == 0 {
+			// a chain of 2..6 alike comparisons of one leaf with literals, joined by
+			// one logical operator (the shape IN-folding and chain rewrites look for);
+			// the leaf is written bare, quoted or parenthesised from link to link
+			leaf := g.leaf(TInt)
+			op := []string{"or", "and"}[r.Intn(2)]
+			cmp := []string{"==", "==", "!=", "<"}[r.Intn(4)]
+			var e *E
+			for i, n := 0, 2+r.Intn(5); i < n; i++ {
+				l := leaf
+				if leaf.K == "name" && len(leaf.Parts) == 1 && !leaf.Parts[0].Quoted && r.Intn(3) == 0 && !g.NoCols && g.isCol(leaf.Parts[0].Name) {
+					// the same name quoted: always the column, never a binding
+					l = &E{K: "name", Parts: []Ident{{Name: leaf.Parts[0].Name, Quoted: true}}}
+				}
+				link := Bin(cmp, l, Num(intLits[r.Intn(8)]))
+				if r.Intn(5) == 0 {
+					link = Bin(cmp, Num(intLits[r.Intn(8)]), l)
+				}
+				if e == nil {
+					e = link
+				} else {
+					e = Bin(op, e, link)
+				}
+			}
+			return e
+		}
 		switch r.Intn(14) {
 		case 0, 1:
 			return Bin([]string{"or", "and"}[r.Intn(2)], g.Gen(TBool, d), g.Gen(TBool, d))
